@@ -22,10 +22,10 @@ if not applied:
     print(git("apply %s" % patch))
 meta = {"property": prop, "worktree_base": git("rev-parse --short HEAD")[1].strip()}
 # demo on patched
-t = time.time(); rc_p, out_p = run("sh demo.sh", cwd=sd, timeout=3000); meta["demo_with_patch"] = {"exit": rc_p, "tail": out_p[-600:], "s": round(time.time()-t)}
+t = time.time(); rc_p, out_p = run("bash demo.sh", cwd=sd, timeout=3000); meta["demo_with_patch"] = {"exit": rc_p, "tail": out_p[-600:], "s": round(time.time()-t)}
 # demo on clean
 print(git("apply -R %s" % patch))
-t = time.time(); rc_c, out_c = run("sh demo.sh", cwd=sd, timeout=3000); meta["demo_clean"] = {"exit": rc_c, "tail": out_c[-400:], "s": round(time.time()-t)}
+t = time.time(); rc_c, out_c = run("bash demo.sh", cwd=sd, timeout=3000); meta["demo_clean"] = {"exit": rc_c, "tail": out_c[-400:], "s": round(time.time()-t)}
 print(git("apply %s" % patch))
 # pinned tests with the patch (their build dir exists)
 if os.path.isdir(os.path.join(wt, "_build")):
